@@ -4,7 +4,7 @@ from hypothesis import strategies as st
 
 from .. import gen
 from ..core import SubCheck, Violation
-from ..oracle import lib, np_rows, lazy_ra, expect_unchanged, expect_array, jsonable, arrays_equal
+from ..oracle import LAZY_CHOICES, lib, np_rows, lazy_ra, expect_unchanged, expect_array, jsonable, arrays_equal
 from .c05 import close
 
 RULE = ("Cases = ragged arrays with at least one non-empty row (empty rows anywhere, very uneven row lengths 0/1/long), "
@@ -117,6 +117,39 @@ def body_mean(case, ctx):
     expect_unchanged(ra, rows, a["dt"], "colmean-operand")
 
 
+def body_mean_wide(case, ctx):
+    """float columns whose SUM leaves the element dtype's range while the mean stays inside it"""
+    a, rows, ra = common(case, ctx, "spell:" + case["spell"])
+    cols = columns(rows)
+    with np.errstate(all="ignore"):
+        exp64 = np.array([np.sum(np.array(c, dtype=np.float64)) / len(c) for c in cols])
+        exp = exp64.astype(a["dt"])
+        got = lib(lambda: ra.mean(axis=0) if case["spell"] == "method" else np.mean(ra, axis=0))
+    if not got.ok:
+        raise Violation("colmean-wide:unexpected-refusal", got=got.brief())
+    v = np.asarray(got.value)
+    big = float(np.finfo(a["dt"]).max)
+    overflowing = [j for j, c in enumerate(cols) if abs(float(np.sum(np.array(c, dtype=np.float64)))) > big and np.isfinite(exp[j])]
+    ctx.label("sum-overflows-dtype" if overflowing else "sum-in-range")
+    ctx.nt(bool(overflowing))
+    if v.shape != exp.shape or v.dtype.kind != "f" or not close(v.astype(a["dt"]), exp, 4):
+        raise Violation("colmean-wide:values", expected=jsonable(exp), got=jsonable(v), overflowing_columns=overflowing)
+    expect_unchanged(ra, rows, a["dt"], "colmean-operand")
+
+
+@st.composite
+def mean_wide_case(draw, tier):
+    dt = draw(st.sampled_from(["float32", "float32", "float64"]))
+    top = float(np.finfo(dt).max)
+    pool = st.sampled_from([top, -top, top / 2, top * 0.75, -top * 0.75, top / 4, 1.0, 0.0, -2.5])
+    lens = draw(st.lists(st.integers(0, 3), min_size=2, max_size=5))
+    if sum(lens) == 0:
+        lens = lens + [1]
+    vals = [float(np.array(v, dtype=dt)) for v in draw(st.lists(pool, min_size=sum(lens), max_size=sum(lens)))]
+    return {"a": {"lens": lens, "dt": dt, "vals": vals}, "spell": draw(st.sampled_from(["method", "np"])), "j": 0,
+            "lz": draw(st.sampled_from([0, 0, 1, 2]))}
+
+
 def body_colvalues(case, ctx):
     a, rows, ra = common(case, ctx)
     cols = columns(rows)
@@ -139,7 +172,7 @@ def col_case(draw, tier, specials=True):
     if sum(a["lens"]) == 0:
         a = {"lens": a["lens"] + [1], "dt": a["dt"], "vals": draw(gen.flat_values(a["dt"], 1, specials=specials, mag=2**40))}
     return {"a": a, "spell": draw(st.sampled_from(["method", "np"])), "j": draw(st.integers(0, 1000)),
-            "lz": draw(st.sampled_from([0, 0, 0, 1, 2, 3, 4]))}
+            "lz": draw(st.sampled_from(LAZY_CHOICES))}
 
 
 SUBCHECKS = [
@@ -151,6 +184,8 @@ SUBCHECKS = [
              doc="col_counts() = number of rows with more than j elements"),
     SubCheck("column-mean", body_mean, col_case, quick=5000, thorough=300000, shards_quick=3,
              doc="mean(axis=0) = column sum / column count"),
+    SubCheck("column-mean-wide", body_mean_wide, mean_wide_case, quick=2000, thorough=100000, shards_quick=1,
+             doc="float32/float64 columns whose sum exceeds the element dtype's range while the mean does not"),
     SubCheck("column-values", body_colvalues, col_case, quick=5000, thorough=300000, shards_quick=3,
              doc="get_column_values(j) = the j-th elements of the rows that have one, in row order"),
 ]
